@@ -146,27 +146,35 @@ func runC20(r *RunCtx) error {
 		if child == "" || strings.Contains(child, "/") {
 			child = fmt.Sprintf("file%d", i)
 		}
-		hp := fttypes.MerklePath("s")
-		hc := hexsha(child)
-		res = e.Run(&fttypes.MsgPostFile{Creator: owner.String(), Account: acctHash, HashParent: hp, HashChild: hc, Contents: "c", Viewers: "{}", Editors: "{}", TrackingNumber: tn + "f"})
-		if res.Out != OutOk {
-			return fmt.Errorf("C20: post file failed: %s", res.Err)
+		// the same message delivered again (a wallet retry), then a changed version at the same path, then an entry
+		// below the one just posted: every delivery answers with the address of the plain path
+		deliveries := []struct{ parent, child, contents, tn string }{
+			{"s", child, "c", tn + "f"}, {"s", child, "c", tn + "f"}, {"s", child, "c2", tn + "f"}, {"s", child, "c2", tn + "f"},
+			{"s/" + child, "inner", "c", tn + "g"}, {"s/" + child, "inner", "c", tn + "g"},
 		}
-		var resp fttypes.MsgPostFileResponse
-		if err := resp.Unmarshal(res.Data); err != nil {
-			// sdk wraps the response in TxMsgData-less Result.Data = marshalled response
-			return fmt.Errorf("C20: cannot decode PostFile response: %v", err)
+		for di, d := range deliveries {
+			hp := fttypes.MerklePath(d.parent)
+			hc := hexsha(d.child)
+			res = e.Run(&fttypes.MsgPostFile{Creator: owner.String(), Account: acctHash, HashParent: hp, HashChild: hc, Contents: d.contents, Viewers: "{}", Editors: fmt.Sprintf(`{"%s":"k"}`, ftkeeper.MakeEditorAddress(d.tn, owner.String())), TrackingNumber: d.tn})
+			if res.Out != OutOk {
+				return fmt.Errorf("C20: post file failed: %s", res.Err)
+			}
+			var resp fttypes.MsgPostFileResponse
+			if err := resp.Unmarshal(res.Data); err != nil {
+				return fmt.Errorf("C20: cannot decode PostFile response: %v", err)
+			}
+			want := fttypes.MerklePath(d.parent + "/" + d.child)
+			desc := map[string]interface{}{"parent": d.parent, "child_hex": hex.EncodeToString([]byte(d.child)), "delivery": di, "got": resp.Path, "want": want}
+			if resp.Path != want {
+				r.Finding("C20/postfile-path", "MsgPostFileResponse.Path differs from MerklePath(parent/child)", desc)
+			}
+			if f, found := e.App.FileTreeKeeper.GetFiles(e.Ctx, want, ftkeeper.MakeOwnerAddress(want, acctHash)); !found || f.Contents != d.contents {
+				r.Finding("C20/postfile-path", "posted file is not stored at MerklePath(parent/child)", desc)
+			}
+			r.Case("fn", fmt.Sprintf("Post %s %s %s", cStr(hp), cStr(hc), cStr(resp.Path)), map[string]interface{}{"fn": "PostFile", "child_hex": hex.EncodeToString([]byte(d.child)), "got": resp.Path})
+			r.Hist("ops", fmt.Sprintf("PostFile(delivery %d)", di))
 		}
-		want := fttypes.MerklePath("s/" + child)
-		if resp.Path != want {
-			r.Finding("C20/postfile-path", "MsgPostFileResponse.Path differs from MerklePath(parent/child)", map[string]interface{}{"child_hex": hex.EncodeToString([]byte(child)), "got": resp.Path, "want": want})
-		}
-		if _, found := e.App.FileTreeKeeper.GetFiles(e.Ctx, want, ftkeeper.MakeOwnerAddress(want, acctHash)); !found {
-			r.Finding("C20/postfile-path", "posted file is not stored at MerklePath(parent/child)", map[string]interface{}{"child_hex": hex.EncodeToString([]byte(child))})
-		}
-		r.Case("fn", fmt.Sprintf("Post %s %s %s", cStr(hp), cStr(hc), cStr(resp.Path)), map[string]interface{}{"fn": "PostFile", "child_hex": hex.EncodeToString([]byte(child)), "got": resp.Path})
 		r.Count("post:"+child, true)
-		r.Hist("ops", "PostFile")
 	}
 	return nil
 }
